@@ -76,25 +76,109 @@ def rename_function(src: str, qual: str):
     return new
 
 
+def _locate(tree, qual):
+    parts = qual.split(".")
+    body = tree.body
+    node = None
+    for p in parts:
+        node = None
+        for st in body:
+            if isinstance(st, (ast.FunctionDef, ast.ClassDef)) and st.name == p:
+                node = st
+                break
+        if node is None:
+            return None
+        body = node.body
+    return node if isinstance(node, ast.FunctionDef) else None
+
+
+def noop_function(src: str, qual: str):
+    """Insert a `pass` after every simple statement of the function (not after leaving
+    statements): dominance / follow relations must not depend on statement adjacency."""
+    tree = ast.parse(src)
+    node = _locate(tree, qual)
+    if node is None:
+        return None
+    lines = src.split("\n")
+    inserts = []
+    for n in ast.walk(node):
+        if isinstance(n, (ast.Assign, ast.AugAssign, ast.AnnAssign, ast.Expr)) and n is not node:
+            if isinstance(n, ast.Expr) and isinstance(n.value, ast.Constant) and isinstance(n.value.value, str):
+                continue
+            if isinstance(n, ast.Expr) and isinstance(n.value, (ast.Yield, ast.YieldFrom)):
+                pass
+            inserts.append((n.end_lineno, n.col_offset))
+    if not inserts:
+        return None
+    for end, col in sorted(set(inserts), reverse=True):
+        lines.insert(end, " " * col + "pass")
+    new = "\n".join(lines)
+    try:
+        compile(new, "x", "exec")
+    except SyntaxError:
+        return None
+    return new
+
+
+def annotate_function(src: str, qual: str):
+    """Turn every `name = value` (single plain-name target) of the function into an annotated
+    assignment `name: object = value`."""
+    tree = ast.parse(src)
+    node = _locate(tree, qual)
+    if node is None:
+        return None
+    declared = set()
+    for n in ast.walk(node):
+        if isinstance(n, (ast.Global, ast.Nonlocal)):
+            declared.update(n.names)
+    lines = src.split("\n")
+    edits = []
+    seen_ann = set()
+    for n in ast.walk(node):
+        if isinstance(n, ast.AnnAssign) and isinstance(n.target, ast.Name):
+            seen_ann.add(n.target.id)
+    for n in ast.walk(node):
+        if isinstance(n, ast.Assign) and len(n.targets) == 1 and isinstance(n.targets[0], ast.Name) and n.targets[0].id not in declared \
+                and n.targets[0].id not in seen_ann:
+            t = n.targets[0]
+            edits.append((t.lineno, t.end_col_offset))
+            seen_ann.add(t.id)  # annotate each name once (re-annotation is legal but noisy)
+    if not edits:
+        return None
+    for lineno, col in sorted(edits, reverse=True):
+        b = lines[lineno - 1].encode("utf-8")
+        b = b[:col] + b": object" + b[col:]
+        lines[lineno - 1] = b.decode("utf-8")
+    new = "\n".join(lines)
+    try:
+        compile(new, "x", "exec")
+    except SyntaxError:
+        return None
+    return new
+
+
+MODE = {"rename": None, "noop": None, "annotate": None}
+
+
 def job(args):
-    pid, rel, qual = args
+    pid, rel, qual, mode = args
     root = repo_root()
     src = open(os.path.join(root, rel), encoding="utf-8").read()
-    new = rename_function(src, qual)
+    new = {"rename": rename_function, "noop": noop_function, "annotate": annotate_function}[mode](src, qual)
     if new is None:
-        return (pid, qual, "skipped", "")
+        return (pid, qual + "/" + mode, "skipped", "")
     P = Program(overlay={rel: new})
     mod = importlib.import_module(f"vstatic.checks.{pid}")
     ctx = Context(pid, "quick", P, quiet=True)
     try:
         mod.run(ctx)
     except Exception as e:
-        return (pid, qual, "error", f"{type(e).__name__}: {e}"[:200])
+        return (pid, qual + "/" + mode, "error", f"{type(e).__name__}: {e}"[:200])
     if ctx.violations:
-        return (pid, qual, "FALSE-ALARM", "; ".join(f"{v.rule}: {v.msg[:80]}" for v in ctx.violations[:3]))
+        return (pid, qual + "/" + mode, "FALSE-ALARM", "; ".join(f"{v.rule}: {v.msg[:80]}" for v in ctx.violations[:3]))
     if ctx.shortfalls:
-        return (pid, qual, "error", ctx.shortfalls[0][:160])
-    return (pid, qual, "ok", "")
+        return (pid, qual + "/" + mode, "error", ctx.shortfalls[0][:160])
+    return (pid, qual + "/" + mode, "ok", "")
 
 
 def main():
@@ -102,6 +186,7 @@ def main():
     index = {fi.qualname: fi for fi in P.all_functions()}
     jobs = []
     allf = "--all" in sys.argv
+    modes = [m for m in ("rename", "noop", "annotate") if "--" + m in sys.argv] or ["rename"]
     pids = [a for a in sys.argv[1:] if not a.startswith("--")] or available()
     for pid in pids:
         mod = importlib.import_module(f"vstatic.checks.{pid}")
@@ -117,7 +202,8 @@ def main():
                 continue
             rel = os.path.relpath(fi.module.path, P.root)
             qual = fi.qualname if fi.cls is not None else fi.name
-            jobs.append((pid, rel, qual))
+            for mode in modes:
+                jobs.append((pid, rel, qual, mode))
     with ProcessPoolExecutor(max_workers=16) as ex:
         res = list(ex.map(job, jobs))
     bad = [r for r in res if r[2] in ("FALSE-ALARM", "error")]
